@@ -7,6 +7,7 @@ import KrillModel.Drivers.Pure
 import KrillModel.Drivers.SysObjects
 import KrillModel.Drivers.SysKeys
 import KrillModel.Drivers.SysStatus
+import KrillModel.Drivers.Proto
 
 def main (args : List String) : IO UInt32 := do
   match args with
@@ -22,4 +23,5 @@ def main (args : List String) : IO UInt32 := do
   | ["syskeys"] => KM.Drv.SysKeys.main; return 0
   | ["syskeys", prop] => KM.Drv.SysKeys.main prop; return 0
   | ["sysstatus"] => KM.Drv.SysStatus.main; return 0
+  | ["proto"] => KM.Drv.Proto.main; return 0
   | _ => IO.eprintln "usage: kmodel <stream>"; return 2
